@@ -19,7 +19,12 @@ def prepare(chk):
     chk.functions.update({k: '%d IR instructions' % v for k, v in ex[2]['functions'].items()})
     H = os.path.join(VERIF, 'harness', 'c03', 'half_cpp.c')
     real = u.real_so('g++')
-    def ob(oid, func, desc, mode, **kw):
+    def ob(oid, func, desc, mode, fallback=None, fallback_kw=None, **kw):
+        if fallback is not None:
+            o = ob(oid, func, desc, mode, **kw)
+            k2 = dict(kw); k2.update(fallback_kw or {})
+            o.fallback = ob(oid, func, desc, fallback, **k2)
+            return o
         hp, bp, info = {'exact': ex, 'uf': uf, 'ufar': ufar}[mode]
         d = ('GEN_H="%s"' % os.path.basename(hp),)
         if mode == 'ufar': d += ('UF_ARITH',)
